@@ -40,3 +40,23 @@ package rsyncopts
 
 //@ func (*rsyncopts.Options).setOutputVerbosity
 //@   modifies rsyncopts.Options.info, rsyncopts.Options.debug, E:uint16, rsyncos.Env.logger
+
+// ---------------------------------------------------------------- C14: options re-serialised for the server
+// The server command line is "--server", "--sender" when the server sends,
+// the option letters (when there are any), then the long options: every
+// option the remote side acts on is there exactly when it is set.
+// hasLetter(s, c): byte c occurs in s.
+//@ spec func hasLetter(s: Str, c: int): bool
+//@ axiom letter-of-concat: forall a: Str, b: Str, c: int :: hasLetter(a + b, c) <==> (hasLetter(a, c) || hasLetter(b, c))
+//@ axiom letter-of-single: forall s: Str, c: int :: len(s) == 1 ==> (hasLetter(s, c) <==> s[0] == c)
+//@ spec func b2i(b: bool): int = ite(b, 1, 0)
+//@ spec func anyLetter(o: *rsyncopts.Options): bool = o.verbose != 0 || o.update_only != 0 || o.dry_run != 0 || o.preserve_links != 0 || o.preserve_uid != 0 || o.preserve_gid != 0 || o.preserve_devices != 0 || o.preserve_mtimes != 0 || o.preserve_perms != 0 || o.recurse != 0 || o.always_checksum != 0 || o.ignore_times != 0
+//@ spec func lettersAt(o: *rsyncopts.Options): int = 1 + b2i(o.am_sender == 0)
+//@ spec func longAt(o: *rsyncopts.Options): int = lettersAt(o) + b2i(anyLetter(o))
+//@ spec func specialsSaid(o: *rsyncopts.Options): bool = (o.preserve_specials != 0) != (o.preserve_devices != 0)
+//@ func (*rsyncopts.Options).ServerOptions
+//@   ensures[C14] [server-then-sender] result[0] == "--server" && (o.am_sender == 0 ==> result[1] == "--sender")
+//@   ensures[C14] [letters-exactly-for-set-options] anyLetter(o) ==> (hasLetter(result[lettersAt(o)], 110) <==> o.dry_run != 0) && (hasLetter(result[lettersAt(o)], 108) <==> o.preserve_links != 0) && (hasLetter(result[lettersAt(o)], 111) <==> o.preserve_uid != 0) && (hasLetter(result[lettersAt(o)], 103) <==> o.preserve_gid != 0) && (hasLetter(result[lettersAt(o)], 68) <==> o.preserve_devices != 0) && (hasLetter(result[lettersAt(o)], 116) <==> o.preserve_mtimes != 0) && (hasLetter(result[lettersAt(o)], 112) <==> o.preserve_perms != 0) && (hasLetter(result[lettersAt(o)], 114) <==> o.recurse != 0) && (hasLetter(result[lettersAt(o)], 99) <==> o.always_checksum != 0) && (hasLetter(result[lettersAt(o)], 73) <==> o.ignore_times != 0) && (hasLetter(result[lettersAt(o)], 117) <==> o.update_only != 0)
+//@   ensures[C14] [specials-said-when-they-differ-from-devices] specialsSaid(o) ==> result[longAt(o)] == ite(o.preserve_specials != 0, "--specials", "--no-specials")
+//@   ensures[C14] [delete-reaches-the-receiving-server] o.am_sender != 0 && o.delete_mode != 0 ==> result[longAt(o) + b2i(specialsSaid(o))] == "--delete"
+//@   ensures[C14] [nothing-else] len(result) == longAt(o) + b2i(specialsSaid(o)) + b2i(o.am_sender != 0 && o.delete_mode != 0)
